@@ -11,6 +11,7 @@
 //@ inline graphql_type_system crates/type-system/src mods=builder,cloning_utils,definitions,node,root_types,schema,text,r#type:type all=nitrogql_ast,graphql_type_system,nitrogql_semantics,sourcemap_writer,nitrogql_utils,nitrogql_config_file,nitrogql_printer
 //@ end
 //@ inline sourcemap_writer crates/sourcemap-writer/src mods=writer all=nitrogql_ast,graphql_type_system,nitrogql_semantics,sourcemap_writer,nitrogql_utils,nitrogql_config_file,nitrogql_printer
+//@   rewrite T4-ghost 1 "pub trait SourceMapWriter {" => "pub trait SourceMapWriter {\n    /* vx: ghost view inserted (T4); erased at compile time */ spec fn out(&self) -> Seq<char>;"
 //@ end
 //@ inline nitrogql_utils crates/utils/src mods=capitalize,chars,clone_into all=nitrogql_ast,graphql_type_system,nitrogql_semantics,sourcemap_writer,nitrogql_utils,nitrogql_config_file,nitrogql_printer
 //@ end
